@@ -122,28 +122,51 @@ func (df *DictionaryFilter) extractElements(serializedArray []byte, values [][]b
 	}
 
 	if df.valueType == pbv1.ValueTypeStrArr {
-		// For each query value, check if it exists in the array
-		// UnmarshalVarArray modifies the source in-place for decoding
-		// This approach has zero allocations and early-exits on match
+		// For each query value, check if it exists in the array.
+		// The array is walked more than once (once per query value, and again on every
+		// later call), so it must never be decoded with encoding.UnmarshalVarArray:
+		// that un-escapes in place and a second walk would parse the damaged bytes.
+		// strArrContains compares against the escaped form without writing to it;
+		// it has zero allocations and early-exits on match.
 		for _, v := range values {
-			found := false
-			for idx := 0; idx < len(serializedArray); {
-				end, next, err := encoding.UnmarshalVarArray(serializedArray, idx)
-				if err != nil {
-					return false
-				}
-				if bytes.Equal(v, serializedArray[idx:end]) {
-					found = true
-					break
-				}
-				idx = next
-			}
-			if !found {
+			if !strArrContains(serializedArray, v) {
 				return false
 			}
 		}
 		return true
 	}
 
+	return false
+}
+
+// strArrContains reports whether item is an element of serializedArray, a sequence of
+// encoding.MarshalVarArray entries. It never modifies serializedArray. A malformed
+// array (dangling escape or missing trailing delimiter) contains nothing.
+func strArrContains(serializedArray, item []byte) bool {
+	// matched is the number of leading bytes of item the current element agrees with,
+	// or -1 once the current element is known to differ.
+	matched := 0
+	for i := 0; i < len(serializedArray); i++ {
+		b := serializedArray[i]
+		switch b {
+		case encoding.EntityDelimiter:
+			if matched == len(item) {
+				return true
+			}
+			matched = 0
+			continue
+		case encoding.Escape:
+			i++
+			if i >= len(serializedArray) {
+				return false
+			}
+			b = serializedArray[i]
+		}
+		if matched >= 0 && matched < len(item) && item[matched] == b {
+			matched++
+		} else {
+			matched = -1
+		}
+	}
 	return false
 }
